@@ -54,6 +54,10 @@ func verifH_C18_ast() {
 	star := sql.SelectList{{ValueExpressionPrimary: sql.Asterisk{}}}
 	anyCol := func(tag string) sql.ColumnReference {
 		names := []string{"a", "b", "s", "f", "nosuch"}
+		if verifParam("narrow", 0) == 1 {
+			// quick tier with more rows: one column of each kind that matters here
+			names = []string{"a", "s"}
+		}
 		return sql.ColumnReference{ColumnName: names[verifChoice(tag, len(names))]}
 	}
 	anyLit := func(tag string) interface{} {
